@@ -91,6 +91,18 @@ def showUser (s : FSt) (i : Nat) : String :=
     | none => "-"
   s!" u{i}={p} e{i}={e}"
 
+/-- a per-(week, token) ledger over the weeks `0 … W` and the tokens `0 … NTOK-1`: `week.token:value` of the non-zero
+    entries, ascending by week then token, `-` if none -/
+def showLedger2 (f : Nat → Tok → Nat) (W : Nat) : String :=
+  let l := (List.range (W + 1)).flatMap fun w => (List.range NTOK).filterMap fun t =>
+    if f w t = 0 then none else some s!"{w}.{t}:{f w t}"
+  if l.isEmpty then "-" else ",".intercalate l
+
+/-- the ghost ledgers C10 talks about (`a.collected`, `a.paid`), ALL weeks, in the format of the harness's own ledgers
+    (`w_fees.rs`: `collected`, `paid`, built from the real contract's views and returned payments) -/
+def showGhosts (s : FSt) (W : Nat) : String :=
+  s!" led=coll:{showLedger2 s.a.collected W};paid:{showLedger2 s.a.paid W}"
+
 def showState (d : D) : String :=
   let s := d.s
   let W := (s.week).getD 0
@@ -100,7 +112,7 @@ def showState (d : D) : String :=
   s!"pb={s.perBlock} paused={if s.paused then 1 else 0} toks={joinNats s.a.allTokens} " ++
   s!"bal={joinNats ((List.range NTOK).map s.bal)} lm={s.lockedMinted}" ++
   String.join (weeks.map (showWeek s)) ++ s!" bk={showBuckets s}" ++
-  String.join ((List.range d.users).map fun i => showUser s (i + 1))
+  String.join ((List.range d.users).map fun i => showUser s (i + 1)) ++ showGhosts s W
 
 /-! Speed only: the model's maps are closures that grow by one layer per update, and printing the
     state reads a few hundred keys through them.  After every successful op the driver re-tabulates
@@ -113,6 +125,14 @@ def tabulate {α : Type} (f : Nat → α) (lo n : Nat) : Array α :=
 def lookupTab {α : Type} (arr : Array α) (lo : Nat) (f : Nat → α) (k : Nat) : α :=
   if h : lo ≤ k ∧ k - lo < arr.size then arr[k - lo]'h.2 else f k
 
+def tabulate2 (f : Nat → Tok → Nat) (nW : Nat) : Array (Array Nat) :=
+  (Array.range nW).map fun w => (Array.range NTOK).map fun t => f w t
+
+def lookupTab2 (arr : Array (Array Nat)) (f : Nat → Tok → Nat) (w : Nat) (t : Tok) : Nat :=
+  if h : w < arr.size then
+    if h2 : t < (arr[w]'h).size then (arr[w]'h)[t]'h2 else f w t
+  else f w t
+
 def compact (s : FSt) : FSt :=
   let g := s.w
   let W := (s.week).getD 0
@@ -121,10 +141,15 @@ def compact (s : FSt) : FSt :=
   let te := tabulate g.totalEnergy lo 10
   let tl := tabulate g.totalLocked lo 10
   let tr := tabulate g.totalRewards lo 10
+  -- the ghost ledgers are printed for ALL weeks `0 … W` (`showGhosts`)
+  let co := tabulate2 s.a.collected (W + 2)
+  let pd := tabulate2 s.a.paid (W + 2)
   { s with w := { g with buckets := lookupTab bk g.firstBucketId g.buckets
                          totalEnergy := lookupTab te lo g.totalEnergy
                          totalLocked := lookupTab tl lo g.totalLocked
-                         totalRewards := lookupTab tr lo g.totalRewards } }
+                         totalRewards := lookupTab tr lo g.totalRewards }
+           a := { s.a with collected := lookupTab2 co s.a.collected
+                           paid := lookupTab2 pd s.a.paid } }
 
 def parseKnown (ws : List String) : List Tok :=
   match kv ws "known" with
